@@ -430,8 +430,77 @@ def tableC48 : List (String × Handler) := [("join", hJoin),
   ("shuffle", hShuffle), ("groupbytasks", hGroupbyTasks), ("groupbydisk", hGroupbyDisk), ("digit", hDigit),
   ("setdigit", hSetDigit), ("product", hProduct), ("zip", hZip)]
 
+/-! review round: the real cut points of `split`, `repartition(partition_size)`, `from_sequence`, mean / var -/
+
+/-- `(splitcuts len n)` ↦ `[int(len / n * i) for i in range(n)]` -/
+def hSplitCuts : Handler := handler fun args =>
+  match args with
+  | [len, n] => do pure (SExp.ofNats (splitCuts (← len.toNat?) (← n.toNat?)))
+  | _ => none
+
+/-- `(split n (seq…))` ↦ the `n` slices -/
+def hSplit : Handler := handler fun args =>
+  match args with
+  | [n, seq] => do
+    let n ← n.toNat?
+    if n = 0 then none else pure (ofIntss (splitB n (← seq.toInts?)))
+  | _ => none
+
+/-- `(repartitionieee m parts)`: `repartition_npartitions` with the model's own binary64 cut points -/
+def hRepartitionIeee : Handler := handler fun args =>
+  match args with
+  | [m, parts] => do
+    let m ← m.toNat?
+    let b ← parts.toIntss?
+    if m = 0 then none else pure (ofIntss (repartitionB (cutsOfBag b m) m b))
+  | _ => none
+
+/-- `(repartitionsize (nsplits…) (chunk lengths…) parts)` -/
+def hRepartitionSize : Handler := handler fun args =>
+  match args with
+  | [ns, cs, parts] => do pure (ofIntss (repartitionSizeB (← ns.toNats?) (← cs.toNats?) (← parts.toIntss?)))
+  | _ => none
+
+/-- `(fromsequence n partition_size|none npartitions|none)` on `range(n)` ↦ `(ok size (partition lengths…))` | `(raised)` -/
+def hFromSequence : Handler := handler fun args =>
+  match args with
+  | [n, ps, np] => do
+    let n ← n.toNat?
+    let ps ← toOptNat? ps
+    let np ← toOptNat? np
+    match fromSequenceSize n ps np, fromSequenceB (List.range n) ps np with
+    | some size, some b =>
+      if b.flatten = List.range n then pure (.list [.sym "ok", SExp.ofNat size, SExp.ofNats (b.map List.length)])
+      else pure (.list [.sym "lost"])
+    | _, _ => pure raised
+  | _ => none
+
+/-- `(mean parts)` ↦ `(ok total count)` | `(raised)` -/
+def hMean : Handler := handler fun args =>
+  match args with
+  | [parts] => do
+    match meanB (← parts.toIntss?) with
+    | some (some tc) => pure (.list [.sym "ok", .int tc.1, SExp.ofNat tc.2])
+    | some none => pure raised
+    | none => pure (.list [.sym "hang"])
+  | _ => none
+
+/-- `(var ddof parts)` ↦ `(ok x2 x n)` | `(raised)` -/
+def hVar : Handler := handler fun args =>
+  match args with
+  | [ddof, parts] => do
+    match varB (← ddof.toNat?) (← parts.toIntss?) with
+    | some (some t) => pure (.list [.sym "ok", .int t.1, .int t.2.1, SExp.ofNat t.2.2])
+    | some none => pure raised
+    | none => pure (.list [.sym "hang"])
+  | _ => none
+
+def tableC48b : List (String × Handler) := [
+  ("splitcuts", hSplitCuts), ("split", hSplit), ("repartitionieee", hRepartitionIeee), ("repartitionsize", hRepartitionSize),
+  ("fromsequence", hFromSequence), ("mean", hMean), ("var", hVar)]
+
 end BagDriver
 
-def table : List (String × Handler) := BagDriver.tableC50 ++ BagDriver.tableC49 ++ BagDriver.tableC48
+def table : List (String × Handler) := BagDriver.tableC50 ++ BagDriver.tableC49 ++ BagDriver.tableC48 ++ BagDriver.tableC48b
 
 def main : IO Unit := runDriver table
